@@ -131,6 +131,9 @@ def build(job):
         # position (close = entry +-0.2 %, rows at +-0.15 % and +-0.225 %): the position is still open after the matching and
         # the minute's range contains the liquidation price, although the rest of the minute after the fill does not
         script['tp'], script['tp_points'] = 0.0015, 2
+        if job.get('callback_market'):
+            # the callback of that partial fill submits a MARKET order (scale-in) in the same minute
+            script['on_reduced'] = 'add_market'
     elif job.get('resting_tps') and job.get('mode') != 'spot':   # (a spot holding of 17 digits cannot be split into exact rows)
         # a ladder of take-profits far on the winning side: they rest (and must be cancelled) while the position is liquidated
         script['tp'], script['tp_points'] = 0.2, job['resting_tps']
@@ -305,6 +308,6 @@ def make_jobs(tier, seed):
                          'stop': stop, 'fast': fast, 'mode': mode, 'averaged': rng.random() < 0.3,
                          'tf': rng.choice(['1m', '1m', '5m']), 'fee': rng.choice([0, 0.0005, 0.001]),
                          'close_mode': rng.choice(['half', 'half', 'recover_profit', 'at_extreme']),
-                         'resting_tps': rng.choice([0, 0, 3, 4]), 'partial_tp': rng.random() < 0.5})
+                         'resting_tps': rng.choice([0, 0, 3, 4]), 'partial_tp': rng.random() < 0.5, 'callback_market': rng.random() < 0.5})
             i += 1
     return jobs
